@@ -1,18 +1,64 @@
 import Esp.Model.Plain
+import Esp.Model.Noise
+import Esp.Model.SymAead
+import Esp.Spec.Wire
 import Driver.Util
 /-!
 # Line-protocol driver
 
 One operation per input line, one canonical observation line per operation.  The Python
-harness (`harness/lineproto.py`) runs the real code on the same operations and diffs.
+harness runs the real code on the same operations and diffs.
 -/
 open Esp Drv
 
 structure St where
   plain : Plain.State := {}
+  noiseCfg : Noise.Config := { expectedName := none, hs := fun _ => .raises, utf8 := fun _ => true }
+  noise : Noise.State := {}
 
 def showPlainErr : Option PlainErr → String
   | none => "none" | some .requiresEncryption => "requiresEncryption" | some .protocol => "protocol"
+
+def showRaw : RawKind → String
+  | .indexError => "IndexError" | .unicodeError => "UnicodeDecodeError" | .noiseLibError => "noiseLib"
+
+def showNoiseErr : NoiseErr → String
+  | .protocol => "protocol" | .handshake => "handshake" | .invalidKey => "invalidKey"
+  | .badName n => s!"badName:{bytesToHex n}" | .socketClosed => "socketClosed" | .closedBase => "base"
+  | .raw k => s!"raw:{showRaw k}" | .other => "other"
+
+def showNoiseEv : Noise.Ev → String
+  | .ready => "ready" | .deliver p => s!"d:{showPacket p}" | .fatal e => s!"f:{showNoiseErr e}"
+
+def showPhase : Noise.Phase → String
+  | .hello => "hello" | .handshake => "handshake" | .ready => "ready" | .closed => "closed"
+
+def showReady : Noise.Ready → String
+  | .pending => "pending" | .ok => "ok" | .err e => s!"err:{showNoiseErr e}"
+
+def showNoise (r : Noise.State × List Noise.Ev) : String :=
+  s!"e [{" ".intercalate (r.2.map showNoiseEv)}] phase={showPhase r.1.phase} ready={showReady r.1.ready} tclosed={r.1.transportClosed}"
+
+/-- symbolic handshake oracle: the responder's handshake payload starts with 1 = accepted,
+2 = `InvalidTag`, anything else = some other exception from the noise library -/
+def symHs (b : Bytes) : HsResult :=
+  match b with
+  | 1 :: _ => .ok
+  | 2 :: _ => .invalidTag
+  | _ => .raises
+
+def utf8Valid (b : Bytes) : Bool := ByteArray.validateUTF8 ⟨b.toArray⟩
+
+def parsePacket (w : String) : Option Packet :=
+  match w.splitOn ":" with
+  | [t, h] => match t.toNat?, hexToBytes h with
+    | some t, some b => some (t, b)
+    | _, _ => none
+  | _ => none
+
+def parsePackets (ws : List String) : Option (List Packet) := ws.mapM parsePacket
+
+def showBytes (b : Bytes) : String := s!"len={b.length} hash={phash b}"
 
 def step (st : St) (line : String) : St × String :=
   match words line with
@@ -23,6 +69,48 @@ def step (st : St) (line : String) : St × String :=
     | some chunk =>
       let (s', ds) := Plain.feed st.plain chunk
       ({ st with plain := s' }, s!"d [{showPackets ds}] buf={s'.buf.length} closed={showPlainErr s'.closed}")
+  | "plain.write" :: ws =>
+    match parsePackets ws with
+    | none => (st, "bad-op")
+    | some ps => (st, s!"w {showBytes (Plain.write ps)}")
+  | "noise.write" :: n :: ws =>
+    match n.toNat?, parsePackets ws with
+    | some n, some ps =>
+      match Noise.writeChecked symAead n ps with
+      | some r => (st, s!"w {showBytes r.1} next={r.2}")
+      | none => (st, s!"refused next={n}")
+    | _, _ => (st, "bad-op")
+  | ["spec.decplain", hx] =>
+    match hexToBytes hx with
+    | none => (st, "bad-op")
+    | some b => match Spec.decodePlain b with
+      | none => (st, "none")
+      | some ps => (st, s!"some [{showPackets ps}]")
+  | ["spec.decnoise", n, hx] =>
+    match n.toNat?, hexToBytes hx with
+    | some n, some b => match Spec.decodeNoise symAead n b with
+      | none => (st, "none")
+      | some (ps, n') => (st, s!"some [{showPackets ps}] next={n'}")
+    | _, _ => (st, "bad-op")
+  | ["noise.reset", exp] =>
+    let e := if exp == "none" then some none else (hexToBytes exp).map some
+    match e with
+    | none => (st, "bad-op")
+    | some e => ({ st with noise := {}, noiseCfg := { expectedName := e, hs := symHs, utf8 := utf8Valid } }, "ok")
+  | ["noise.feed", hx] =>
+    match hexToBytes hx with
+    | none => (st, "bad-op")
+    | some chunk =>
+      let r := Noise.feed st.noiseCfg symAead st.noise chunk
+      ({ st with noise := r.1 }, showNoise r)
+  | ["noise.lost", k] =>
+    let x : Option (Option Noise.Exc) := match k with
+      | "none" => some none | "reset" => some (some .reset) | "other" => some (some .other) | _ => none
+    match x with
+    | none => (st, "bad-op")
+    | some x => let r := Noise.connectionLost st.noise x; ({ st with noise := r.1 }, showNoise r)
+  | ["noise.eof"] =>
+    let r := Noise.eofReceived st.noise; ({ st with noise := r.1 }, showNoise r)
   | _ => (st, "bad-op")
 
 partial def loop (h : IO.FS.Stream) (out : IO.FS.Stream) (st : St) : IO Unit := do
